@@ -328,7 +328,10 @@ func suiteC12(r *Run) {
 							r.Violate("http/resolve/success-without-handler", "unknown services or methods fail with a status error", sprintf("%s base %q %s(%q) returned nil without running a handler", via, base, kind, name), c, "ok")
 						} else if _, ok := status.FromError(err); !ok {
 							r.Violate("http/resolve/non-status-error", "fail with a status error", sprintf("%s base %q %s(%q): %v", via, base, kind, name, err), c, canonErr(err))
-						} else if status.Code(err) != codes.NotFound && kind == "unary" {
+						} else if status.Code(err) != codes.NotFound && wellFormed(name) {
+							r.Violate("http/resolve/unknown-name-not-notfound", "unknown services or methods fail with a status error (NotFound over HTTP)",
+								sprintf("%s base %q %s(%q): %v", via, base, kind, name, err), c, canonErr(err))
+						} else {
 							r.Count("http:unknown-name-code-" + status.Code(err).String())
 						}
 					}
@@ -337,6 +340,20 @@ func suiteC12(r *Run) {
 		}
 	}
 	_ = grpchantesting.MetadataNew
+}
+
+// wellFormed: "/svc/method" with two plain segments.
+func wellFormed(name string) bool {
+	p := strings.Split(strings.TrimPrefix(name, "/"), "/")
+	if len(p) != 2 {
+		return false
+	}
+	for _, s := range p {
+		if s == "" || s == "." || s == ".." {
+			return false
+		}
+	}
+	return true
 }
 
 // cleanName is path.Clean applied to "/"+name, without the leading slash.
